@@ -454,6 +454,9 @@ def field_source(cname: str, f: dict, kind: str) -> Tuple[str, List[str]]:
     texpr = type_expr(f["type"])
     if f["kind"] == "wo":
         texpr = f"InitVar[{texpr}]"
+    elif f.get("mdann") and md:
+        # the same metadata carried inside Annotated instead of field(metadata=...)
+        texpr, md = f"Annotated[{texpr}, {', '.join(md)}]", []
     return texpr, md
 
 
